@@ -116,188 +116,219 @@ end
 /-! ### types without absolute references do not look at the declaration table -/
 
 mutual
-/-- no absolute reference on the interpreted spine of the type (what a parser of TypeScript text produces) -/
-def Ty.noAbs : Ty → Bool
+/-- no absolute reference on the interpreted spine of the type (what a parser of TypeScript text produces), and every
+    application on the spine has a head satisfying `p` (= a head no helper-type hook interprets) -/
+def Ty.spine (p : Ty → Bool) : Ty → Bool
   | .other tag _ => tag != "abs"
-  | .obj fs => Ty.noAbsFields fs
-  | .arr t => t.noAbs
-  | .roArr t => t.noAbs
-  | .union ts => Ty.noAbsList ts
-  | .inter ts => Ty.noAbsList ts
+  | .app f _ => p f
+  | .obj fs => Ty.spineFields p fs
+  | .arr t => t.spine p
+  | .roArr t => t.spine p
+  | .union ts => Ty.spineList p ts
+  | .inter ts => Ty.spineList p ts
   | _ => true
-def Ty.noAbsList : List Ty → Bool
+def Ty.spineList (p : Ty → Bool) : List Ty → Bool
   | [] => true
-  | t :: ts => t.noAbs && Ty.noAbsList ts
-def Ty.noAbsFields : List (String × Bool × Bool × Ty) → Bool
+  | t :: ts => t.spine p && Ty.spineList p ts
+def Ty.spineFields (p : Ty → Bool) : List (String × Bool × Bool × Ty) → Bool
   | [] => true
-  | (_, _, _, t) :: fs => t.noAbs && Ty.noAbsFields fs
+  | (_, _, _, t) :: fs => t.spine p && Ty.spineFields p fs
 end
 
-theorem noAbsList_mem : ∀ {ts : List Ty}, Ty.noAbsList ts = true → ∀ t ∈ ts, t.noAbs = true := by
+/-- no absolute reference on the interpreted spine -/
+def Ty.noAbs (t : Ty) : Bool := t.spine (fun _ => true)
+
+/-- the head of an application is not the helper `Omit` (the only head `Ts.stdHook` interprets) -/
+def notOmitHead : Ty → Bool
+  | .ref n => n != "Omit"
+  | _ => true
+
+/-- no absolute reference and no `Omit<…>` application on the interpreted spine -/
+def Ty.noOmit (t : Ty) : Bool := t.spine notOmitHead
+
+section spine
+variable {p : Ty → Bool}
+
+theorem spineList_mem : ∀ {ts : List Ty}, Ty.spineList p ts = true → ∀ t ∈ ts, t.spine p = true := by
   intro ts
   induction ts with
   | nil => intro _ t h; cases h
   | cons a r ih =>
     intro h t ht
-    simp only [Ty.noAbsList, Bool.and_eq_true] at h
+    simp only [Ty.spineList, Bool.and_eq_true] at h
     rcases List.mem_cons.1 ht with rfl | ht
     · exact h.1
     · exact ih h.2 t ht
 
-theorem noAbsFields_mem : ∀ {fs : List Field}, Ty.noAbsFields fs = true → ∀ f ∈ fs, f.2.2.2.noAbs = true := by
+theorem spineFields_mem : ∀ {fs : List Field}, Ty.spineFields p fs = true → ∀ f ∈ fs, f.2.2.2.spine p = true := by
   intro fs
   induction fs with
   | nil => intro _ f h; cases h
   | cons a r ih =>
     intro h f hf
     obtain ⟨k, ro, o, t⟩ := a
-    simp only [Ty.noAbsFields, Bool.and_eq_true] at h
+    simp only [Ty.spineFields, Bool.and_eq_true] at h
     rcases List.mem_cons.1 hf with rfl | hf
     · exact h.1
     · exact ih h.2 f hf
 
-theorem noAbsFields_of_mem : ∀ {fs : List Field}, (∀ f ∈ fs, f.2.2.2.noAbs = true) → Ty.noAbsFields fs = true := by
-  intro fs
-  induction fs with
-  | nil => intro _; rfl
-  | cons a r ih =>
-    intro h
-    obtain ⟨k, ro, o, t⟩ := a
-    simp only [Ty.noAbsFields, Bool.and_eq_true]
-    exact ⟨h _ List.mem_cons_self, ih (fun f hf => h f (List.mem_cons_of_mem _ hf))⟩
-
-theorem mergeField_noAbs (f : Field) (hf : f.2.2.2.noAbs = true) : ∀ (gs : List Field),
-    Ty.noAbsFields gs = true → Ty.noAbsFields (mergeField f gs) = true := by
+theorem mergeField_spine (f : Field) (hf : f.2.2.2.spine p = true) : ∀ (gs : List Field),
+    Ty.spineFields p gs = true → Ty.spineFields p (mergeField f gs) = true := by
   intro gs
   induction gs with
   | nil =>
     intro _
     obtain ⟨k, ro, o, t⟩ := f
-    simp only [mergeField, Ty.noAbsFields, Bool.and_eq_true]; exact ⟨hf, trivial⟩
+    simp only [mergeField, Ty.spineFields, Bool.and_eq_true]; exact ⟨hf, trivial⟩
   | cons g r ih =>
     intro h
     obtain ⟨k', ro', o', t'⟩ := g
-    simp only [Ty.noAbsFields, Bool.and_eq_true] at h
+    simp only [Ty.spineFields, Bool.and_eq_true] at h
     simp only [mergeField]
     split
-    · simp only [Ty.noAbsFields, Ty.noAbs, Ty.noAbsList, Bool.and_eq_true]
+    · simp only [Ty.spineFields, Ty.spine, Ty.spineList, Bool.and_eq_true]
       exact ⟨⟨h.1, hf, trivial⟩, h.2⟩
-    · simp only [Ty.noAbsFields, Bool.and_eq_true]
+    · simp only [Ty.spineFields, Bool.and_eq_true]
       exact ⟨h.1, ih h.2⟩
 
-theorem mergeFields_noAbs : ∀ (b a : List Field), Ty.noAbsFields a = true → Ty.noAbsFields b = true →
-    Ty.noAbsFields (mergeFields a b) = true := by
+theorem mergeFields_spine : ∀ (b a : List Field), Ty.spineFields p a = true → Ty.spineFields p b = true →
+    Ty.spineFields p (mergeFields a b) = true := by
   intro b
   induction b with
   | nil => intro a ha _; exact ha
   | cons f r ih =>
     intro a ha hb
     obtain ⟨k, ro, o, t⟩ := f
-    simp only [Ty.noAbsFields, Bool.and_eq_true] at hb
+    simp only [Ty.spineFields, Bool.and_eq_true] at hb
     simp only [mergeFields, List.foldl_cons]
-    exact ih _ (mergeField_noAbs _ hb.1 a ha) hb.2
+    exact ih _ (mergeField_spine _ hb.1 a ha) hb.2
 
-/-- invariant of an object view: if it is a record, its field types have no absolute reference -/
-def ObjView.noAbs : ObjView → Prop
-  | .isObj fs => Ty.noAbsFields fs = true
+/-- invariant of an object view: if it is a record, its field types satisfy the spine condition -/
+def ObjView.spine (p : Ty → Bool) : ObjView → Prop
+  | .isObj fs => Ty.spineFields p fs = true
   | _ => True
 
-theorem ObjView.merge_noAbs {a b : ObjView} (ha : a.noAbs) (hb : b.noAbs) : (a.merge b).noAbs := by
-  cases a <;> cases b <;> simp_all [ObjView.merge, ObjView.noAbs]
-  exact mergeFields_noAbs _ _ ha hb
+theorem ObjView.merge_spine {a b : ObjView} (ha : a.spine p) (hb : b.spine p) : (a.merge b).spine p := by
+  cases a <;> cases b <;> simp_all [ObjView.merge, ObjView.spine]
+  exact mergeFields_spine _ _ ha hb
 
-theorem foldl_merge_noAbs {α : Type} (f : α → ObjView) : ∀ (l : List α) (a : ObjView), a.noAbs →
-    (∀ t ∈ l, (f t).noAbs) → (l.foldl (fun acc t => acc.merge (f t)) a).noAbs := by
+theorem foldl_merge_spine {α : Type} (f : α → ObjView) : ∀ (l : List α) (a : ObjView), a.spine p →
+    (∀ t ∈ l, (f t).spine p) → (l.foldl (fun acc t => acc.merge (f t)) a).spine p := by
   intro l
   induction l with
   | nil => intro a ha _; exact ha
   | cons x r ih =>
     intro a ha h
     simp only [List.foldl_cons]
-    exact ih _ (ObjView.merge_noAbs ha (h x List.mem_cons_self)) (fun t ht => h t (List.mem_cons_of_mem _ ht))
+    exact ih _ (ObjView.merge_spine ha (h x List.mem_cons_self)) (fun t ht => h t (List.mem_cons_of_mem _ ht))
 
-section indep
-variable {e1 e2 : Env} (h1 : ∀ d f as, e1.appHook d f as = none) (h2 : ∀ d f as, e2.appHook d f as = none)
+variable {e1 e2 : Env} (h1 : ∀ d f as, p f = true → e1.appHook d f as = none)
+  (h2 : ∀ d f as, p f = true → e2.appHook d f as = none)
 include h1 h2
 
-theorem objView_indep : ∀ (n : Nat) (t : Ty), t.noAbs = true → objView e1 n t = objView e2 n t ∧ (objView e1 n t).noAbs := by
+theorem objView_indep : ∀ (n : Nat) (t : Ty), t.spine p = true →
+    objView e1 n t = objView e2 n t ∧ (objView e1 n t).spine p := by
   intro n
   induction n with
-  | zero => intro t _; simp [objView, ObjView.noAbs]
+  | zero => intro t _; simp [objView, ObjView.spine]
   | succ n ih =>
     intro t ht
     cases t with
-    | obj fs => simp only [objView, ObjView.noAbs, true_and]; simpa [Ty.noAbs] using ht
+    | obj fs => simp only [objView, ObjView.spine, true_and]; simpa [Ty.spine] using ht
     | other tag path =>
-      have : tag ≠ "abs" := by simpa [Ty.noAbs] using ht
-      simp [objView, this, ObjView.noAbs]
-    | app f as => simp [objView, h1, h2, ObjView.noAbs]
+      have : tag ≠ "abs" := by simpa [Ty.spine] using ht
+      simp [objView, this, ObjView.spine]
+    | app f as =>
+      have hp : p f = true := by simpa [Ty.spine] using ht
+      simp [objView, h1 _ f as hp, h2 _ f as hp, ObjView.spine]
     | inter ts =>
       cases ts with
-      | nil => simp [objView, ObjView.noAbs]
+      | nil => simp [objView, ObjView.spine]
       | cons t0 rest =>
-        have hts : Ty.noAbsList (t0 :: rest) = true := by simpa [Ty.noAbs] using ht
-        have h0 := ih t0 (noAbsList_mem hts t0 List.mem_cons_self)
-        have hr : ∀ t ∈ rest, objView e1 n t = objView e2 n t ∧ (objView e1 n t).noAbs :=
-          fun t htm => ih t (noAbsList_mem hts t (List.mem_cons_of_mem _ htm))
+        have hts : Ty.spineList p (t0 :: rest) = true := by simpa [Ty.spine] using ht
+        have h0 := ih t0 (spineList_mem hts t0 List.mem_cons_self)
+        have hr : ∀ t ∈ rest, objView e1 n t = objView e2 n t ∧ (objView e1 n t).spine p :=
+          fun t htm => ih t (spineList_mem hts t (List.mem_cons_of_mem _ htm))
         rw [objView_inter_cons, objView_inter_cons, ← h0.1]
         exact ⟨foldl_merge_congr _ _ _ _ (fun t htm => (hr t htm).1),
-          foldl_merge_noAbs _ _ _ h0.2 (fun t htm => (hr t htm).2)⟩
-    | prim _ => simp [objView, ObjView.noAbs]
-    | ref _ => simp [objView, ObjView.noAbs]
-    | qref _ => simp [objView, ObjView.noAbs]
-    | strLit _ => simp [objView, ObjView.noAbs]
-    | numLit _ => simp [objView, ObjView.noAbs]
-    | arr _ => simp [objView, ObjView.noAbs]
-    | roArr _ => simp [objView, ObjView.noAbs]
-    | union _ => simp [objView, ObjView.noAbs]
-    | fn _ _ => simp [objView, ObjView.noAbs]
-    | index _ _ => simp [objView, ObjView.noAbs]
-    | tuple _ => simp [objView, ObjView.noAbs]
+          foldl_merge_spine _ _ _ h0.2 (fun t htm => (hr t htm).2)⟩
+    | prim _ => simp [objView, ObjView.spine]
+    | ref _ => simp [objView, ObjView.spine]
+    | qref _ => simp [objView, ObjView.spine]
+    | strLit _ => simp [objView, ObjView.spine]
+    | numLit _ => simp [objView, ObjView.spine]
+    | arr _ => simp [objView, ObjView.spine]
+    | roArr _ => simp [objView, ObjView.spine]
+    | union _ => simp [objView, ObjView.spine]
+    | fn _ _ => simp [objView, ObjView.spine]
+    | index _ _ => simp [objView, ObjView.spine]
+    | tuple _ => simp [objView, ObjView.spine]
 
-theorem isOpaque_indep (t : Ty) (ht : t.noAbs = true) : t.isOpaque e1 = t.isOpaque e2 := by
+theorem isOpaque_indep (t : Ty) (ht : t.spine p = true) : t.isOpaque e1 = t.isOpaque e2 := by
   cases t with
   | other tag path =>
-    have : tag ≠ "abs" := by simpa [Ty.noAbs] using ht
+    have : tag ≠ "abs" := by simpa [Ty.spine] using ht
     simp [Ty.isOpaque, this]
-  | app f as => simp [Ty.isOpaque, h1, h2]
+  | app f as =>
+    have hp : p f = true := by simpa [Ty.spine] using ht
+    simp [Ty.isOpaque, h1 _ f as hp, h2 _ f as hp]
   | _ => simp [Ty.isOpaque]
 
-/-- membership in a type without absolute references is the same in every table (without helper-type hooks) -/
-theorem mem_indep_aux {v : J} {t : Ty} (hm : Mem e1 v t) : t.noAbs = true → Mem e2 v t := by
+/-- membership in a type satisfying the spine condition is the same in every table whose hooks ignore heads with `p` -/
+theorem mem_indep_aux {v : J} {t : Ty} (hm : Mem e1 v t) : t.spine p = true → Mem e2 v t := by
   induction hm with
-  | prim p v hp => intro _; exact .prim p v hp
+  | prim q v hp => intro _; exact .prim q v hp
   | strLit s => intro _; exact .strLit s
   | obj kvs fs _ hk ih =>
     intro ht
-    have hfs : Ty.noAbsFields fs = true := by simpa [Ty.noAbs] using ht
-    exact .obj kvs fs (fun f hf hne => ih f hf hne (noAbsFields_mem hfs f hf)) hk
-  | arr xs t _ ih => intro ht; exact .arr xs t (fun x hx => ih x hx (by simpa [Ty.noAbs] using ht))
-  | roArr xs t _ ih => intro ht; exact .roArr xs t (fun x hx => ih x hx (by simpa [Ty.noAbs] using ht))
+    have hfs : Ty.spineFields p fs = true := by simpa [Ty.spine] using ht
+    exact .obj kvs fs (fun f hf hne => ih f hf hne (spineFields_mem hfs f hf)) hk
+  | arr xs t _ ih => intro ht; exact .arr xs t (fun x hx => ih x hx (by simpa [Ty.spine] using ht))
+  | roArr xs t _ ih => intro ht; exact .roArr xs t (fun x hx => ih x hx (by simpa [Ty.spine] using ht))
   | union v ts t htm _ ih =>
     intro ht
-    exact .union v ts t htm (ih (noAbsList_mem (by simpa [Ty.noAbs] using ht) t htm))
+    exact .union v ts t htm (ih (spineList_mem (by simpa [Ty.spine] using ht) t htm))
   | interObj v ts fs n hv _ ih =>
     intro ht
     obtain ⟨he, hna⟩ := objView_indep h1 h2 n (.inter ts) ht
     rw [hv] at he hna
-    exact .interObj v ts fs n he.symm (ih (by simpa [Ty.noAbs, ObjView.noAbs] using hna))
+    exact .interObj v ts fs n he.symm (ih (by simpa [Ty.spine, ObjView.spine] using hna))
   | interAll v ts n hv _ ih =>
     intro ht
     obtain ⟨he, _⟩ := objView_indep h1 h2 n (.inter ts) ht
     rw [hv] at he
-    exact .interAll v ts n he.symm (fun t htm => ih t htm (noAbsList_mem (by simpa [Ty.noAbs] using ht) t htm))
-  | alias v path body _ _ _ => intro ht; simp [Ty.noAbs] at ht
-  | hook v f as t' hh _ _ => intro _; rw [h1] at hh; cases hh
+    exact .interAll v ts n he.symm (fun t htm => ih t htm (spineList_mem (by simpa [Ty.spine] using ht) t htm))
+  | alias v path body _ _ _ => intro ht; simp [Ty.spine] at ht
+  | hook v f as t' hh _ _ =>
+    intro ht
+    have hp : p f = true := by simpa [Ty.spine] using ht
+    rw [h1 _ f as hp] at hh; cases hh
   | opaqueTy t ho =>
     intro ht
     exact .opaqueTy t (by rw [← isOpaque_indep h1 h2 t ht]; exact ho)
 
-end indep
+end spine
 
+theorem mem_indep_spine {p : Ty → Bool} {e1 e2 : Env} (h1 : ∀ d f as, p f = true → e1.appHook d f as = none)
+    (h2 : ∀ d f as, p f = true → e2.appHook d f as = none) {v : J} {t : Ty} (ht : t.spine p = true) :
+    Mem e1 v t ↔ Mem e2 v t :=
+  ⟨fun h => mem_indep_aux h1 h2 h ht, fun h => mem_indep_aux h2 h1 h ht⟩
+
+/-- without helper-type hooks: membership in a type without absolute references is the same in every table -/
 theorem mem_indep {e1 e2 : Env} (h1 : ∀ d f as, e1.appHook d f as = none) (h2 : ∀ d f as, e2.appHook d f as = none)
     {v : J} {t : Ty} (ht : t.noAbs = true) : Mem e1 v t ↔ Mem e2 v t :=
-  ⟨fun h => mem_indep_aux h1 h2 h ht, fun h => mem_indep_aux h2 h1 h ht⟩
+  mem_indep_spine (p := fun _ => true) (fun d f as _ => h1 d f as) (fun d f as _ => h2 d f as) ht
+
+theorem stdHook_none {d : Decls} {f : Ty} {as : List Ty} (hf : notOmitHead f = true) : stdHook d f as = none := by
+  unfold stdHook
+  split
+  · simp [notOmitHead] at hf
+  · rfl
+
+/-- with the standard helper types installed (`Omit`): the same, for types that do not apply `Omit` on their spine -/
+theorem mem_indep_std {e1 e2 : Env} (h2 : ∀ d f as, e2.appHook d f as = none)
+    {v : J} {t : Ty} (ht : t.noOmit = true) : Mem e1.withStd v t ↔ Mem e2 v t :=
+  mem_indep_spine (p := notOmitHead) (fun _ _ _ hf => stdHook_none hf) (fun d f as _ => h2 d f as) ht
 
 end NitroVerif.Ts
 
